@@ -1569,11 +1569,29 @@ func (tr *FnTrans) instantiateWith(cands []Val) {
 }
 
 func (tr *FnTrans) globalCands() []Val {
-	lo := len(tr.idxCands) - 10
-	if lo < 0 {
-		lo = 0
+	if len(tr.clauseCandSet) == 0 {
+		lo := len(tr.idxCands) - 10
+		if lo < 0 {
+			lo = 0
+		}
+		return tr.idxCands[lo:]
 	}
-	return tr.idxCands[lo:]
+	// the last ten index terms of the code itself, plus every term a contract clause indexes with
+	var code, clause []Val
+	for _, c := range tr.idxCands {
+		if tr.clauseCandSet[c.T] {
+			clause = append(clause, c)
+		} else {
+			code = append(code, c)
+		}
+	}
+	if len(code) > 10 {
+		code = code[len(code)-10:]
+	}
+	if len(clause) > 6 {
+		clause = clause[len(clause)-6:]
+	}
+	return append(code, clause...)
 }
 
 // siteFor returns the call-site record for an alias; for a site that has not been translated yet
